@@ -32,6 +32,8 @@ type World struct {
 	Other   kyber.Scalar
 	Alt     DealerH // same dealer key, same verifiers, different secret
 	AltDeal []*PDeal
+	Alt2    DealerH // a third polynomial of the same dealer (equivocation towards the observed verifier)
+	Alt2Dl  []*PDeal
 	SID     []byte
 
 	logH     kyber.Scalar
@@ -70,9 +72,14 @@ func NewWorld(a Adapter, n, t int, seed int64, labels ...string) (*World, error)
 	if w.Alt, err = a.NewDealer(w.S, w.DLong, s2, w.VPub, uint32(t)); err != nil {
 		return nil, err
 	}
+	s3, _ := pick()
+	if w.Alt2, err = a.NewDealer(w.S, w.DLong, s3, w.VPub, uint32(t)); err != nil {
+		return nil, err
+	}
 	for i := 0; i < n; i++ {
 		w.Honest = append(w.Honest, w.Dealer.Deal(i))
 		w.AltDeal = append(w.AltDeal, w.Alt.Deal(i))
+		w.Alt2Dl = append(w.Alt2Dl, w.Alt2.Deal(i))
 	}
 	w.SID = append([]byte(nil), w.Dealer.SessionID()...)
 	return w, nil
@@ -139,7 +146,7 @@ func (w *World) corrupt(kind string, to int) (*PDeal, error) {
 	case "otherpoly":
 		// dealer equivocation: the deal of ANOTHER polynomial of the same dealer (self-consistent), announcing
 		// the session id of this session
-		d = w.AltDeal[to].Clone()
+		d = w.Alt2Dl[to].Clone()
 		d.SID = append([]byte(nil), w.SID...)
 	case "wrongindex":
 		d = w.Honest[(to+1)%w.N].Clone()
